@@ -182,6 +182,17 @@ func topOfRange(p rlwe.Parameters, ct *rlwe.Ciphertext, idx int) {
 	}
 }
 
+// dirtyReceiver is a receiver with a HISTORY: uniform stale content and the metadata a previous call
+// in the other domain would have left (IsNTT opposite to the coming input, another scale, other
+// dimensions, batching flags set). Every operation must overwrite all of it.
+func dirtyReceiver(p rlwe.Parameters, degree, level int, inputIsNTT bool, parts ...interface{}) *rlwe.Ciphertext {
+	ct := uniformCt(p, degree, level, !inputIsNTT, append(parts, "dirty")...)
+	ct.Scale = rlwe.NewScale(999)
+	ct.LogDimensions = ring.Dimensions{Rows: 1, Cols: 3}
+	ct.IsBatched, ct.IsBitReversed = true, true
+	return ct
+}
+
 func metaEqual(a, b *rlwe.MetaData) bool {
 	return a.IsNTT == b.IsNTT && a.IsMontgomery == b.IsMontgomery && a.IsBatched == b.IsBatched &&
 		a.IsBitReversed == b.IsBitReversed && a.LogDimensions == b.LogDimensions && a.Scale.Cmp(b.Scale) == 0
